@@ -235,6 +235,11 @@ type Invocation struct {
 	CPUSeconds int   `json:"cpu_seconds,omitempty"`
 	ASBytes    int64 `json:"as_bytes,omitempty"`
 	StepBudget int64 `json:"step_budget,omitempty"`
+	// FSize: RLIMIT_FSIZE of the tool (bytes; 0 = unlimited): a write that
+	// crosses it is accepted in part (a short write), the next one fails.
+	// Applies to every regular file the tool writes, so only for stock
+	// binaries (the instrumented ones write a statistics file)
+	FSize int64 `json:"file_size_limit,omitempty"`
 }
 
 type invJSON Invocation
@@ -358,7 +363,11 @@ func Run(root string, inv *Invocation) (*Outcome, error) {
 		argv0 = filepath.Base(inv.Binary)
 	}
 	// prlimit applies the limits, then execs the tool with the requested argv[0]
-	limited := []string{"prlimit", "--cpu=" + strconv.Itoa(cpu), "--as=" + strconv.FormatInt(as, 10), "--nofile=256", "--core=0", "--"}
+	limited := []string{"prlimit", "--cpu=" + strconv.Itoa(cpu), "--as=" + strconv.FormatInt(as, 10), "--nofile=256", "--core=0"}
+	if inv.FSize > 0 {
+		limited = append(limited, "--fsize="+strconv.FormatInt(inv.FSize, 10))
+	}
+	limited = append(limited, "--")
 	var args []string
 	straceLog := ""
 	if len(inv.Injects) > 0 || inv.Trace {
